@@ -247,6 +247,9 @@ func scaleC15(g *tr.G) {
 				}
 				ss = append(ss, classString(n, quoteSpecials[ci], (j+e+si)%nPos))
 			}
+			// the first element's class once more as the last element: every class of the line is
+			// seen by the loop over ss[1:], not only by the call for ss[0]
+			ss = append(ss, classString(n, ss[0][strings.IndexAny(ss[0], string(quoteSpecials))], posLast))
 			g.Emit("J "+hxList(ss), true, "scale-join", tagN)
 			if j == 0 {
 				// results held across later calls, at this size
@@ -379,9 +382,13 @@ func scaleC16(g *tr.G) {
 					}
 					withSplit = ki == (si+rot)%primary
 				case ki < primary:
-					withSplit = (ki+si+rot)%3 == 0 // sessions at all three sizes, Split at one
+					// sessions at 8192 and 8193 for all three, at 8191 for one; Split at one size each
+					if n < 8192 && ki != (si+rot)%primary {
+						continue
+					}
+					withSplit = (ki+si+rot)%3 == 0
 				case k.long:
-					if (ki+rot)%3 != 0 || (ki/3+si)%3 != 0 {
+					if (ki+rot)%4 != 0 || (ki/4+si)%3 != 0 {
 						continue
 					}
 					withSplit = false
@@ -392,7 +399,10 @@ func scaleC16(g *tr.G) {
 				}
 			}
 			if d == 1 && k.long && ki >= primary {
-				withSplit = (ki+si+rot)%3 == 0 // Split at one of the three sizes, sessions at all
+				if (ki+si+rot)%3 == 1 {
+					continue // two of the three sizes around 4096, Split at one of them
+				}
+				withSplit = (ki+si+rot)%3 == 0
 			}
 			if d <= 1 && many {
 				continue // token counts are the business of the count stream below
@@ -484,7 +494,7 @@ func scaleC16(g *tr.G) {
 		}
 		// a long token followed by a long remainder: Rest right after the token has about n more bytes
 		// to hand back, most of them already buffered
-		{
+		if d > 0 || si%3 == rot%3 {
 			k := runKinds[(si+rot)%primary]
 			s := "p0 " + k.mk(n) + " " + rep("t1 t22\tt333\n", n)
 			hs := hx(s)
@@ -493,8 +503,9 @@ func scaleC16(g *tr.G) {
 				g.Emit("N "+f+" "+hs+" nnrnr", true, "scale-long-tail", tagN, "scale-frag-"+f)
 			}
 		}
-		// token COUNT at the size: n short tokens of one shape, one separator each
-		if n <= 4097 || g.Thorough() {
+		// token COUNT at the size: n short tokens of one shape, one separator each (the reference is
+		// quadratic in the number of tokens: 4097 is 0.3 s, 16385 would be 5 s per evaluation)
+		if n <= 4097 || g.Thorough() && n <= 8193 {
 			shapes := []string{"a", "''", "ab", "\"x y\"", "\\ "}
 			seps := []string{" ", "\t", "\n"}
 			s := strings.Repeat(shapes[(si+rot)%len(shapes)]+seps[(si/3+rot)%len(seps)], n)
